@@ -56,7 +56,7 @@ def main():
             caught = {}
             for p in props:
                 vs = tempfile.mkdtemp(prefix="seed-verif-")
-                rcc, outc = sh("%s/bin/raftcheck -prop %s -repo %s -verif %s" % (V, p, work, vs))
+                rcc, outc = sh("%s -prop %s -repo %s -verif %s" % (os.environ.get("RAFTCHECK", V + "/bin/raftcheck"), p, work, vs))
                 shutil.rmtree(vs, ignore_errors=True)
                 if rcc != 0:
                     lines = [l for l in outc.splitlines() if ": rule " in l or l.startswith("UNDECIDED")]
